@@ -968,6 +968,8 @@ where
                     Self::handle_signal(myself.clone(), signal),
                 )),
                 actor_cell::ActorPortMessage::Stop(stop_message) => {
+                    #[cfg(ractor_verif)]
+                    crate::verif::emit("port.stop", myself.get_id().pid(), 0);
                     let exit_reason = match stop_message {
                         StopMessage::Stop => {
                             tracing::trace!("Actor {:?} stopped with no reason", myself.get_id());
@@ -984,6 +986,8 @@ where
                     Ok(ActorLoopResult::stop(exit_reason))
                 }
                 actor_cell::ActorPortMessage::Supervision(supervision) => {
+                    #[cfg(ractor_verif)]
+                    crate::verif::emit("port.sup", myself.get_id().pid(), 0);
                     let future = Self::handle_supervision_message(
                         myself.clone(),
                         state,
@@ -1000,6 +1004,8 @@ where
                     }
                 }
                 actor_cell::ActorPortMessage::Message(MuxedMessage::Message(msg)) => {
+                    #[cfg(ractor_verif)]
+                    crate::verif::emit("port.msg", myself.get_id().pid(), 0);
                     let future = Self::handle_message(myself.clone(), state, handler, msg);
                     match ports.run_with_signal(future).await {
                         Ok(Ok(())) => Ok(ActorLoopResult::ok()),
@@ -1011,6 +1017,8 @@ where
                     }
                 }
                 actor_cell::ActorPortMessage::Message(MuxedMessage::Drain) => {
+                    #[cfg(ractor_verif)]
+                    crate::verif::emit("port.drain", myself.get_id().pid(), 0);
                     // Drain is a stub marker that the actor should now stop, we've processed
                     // all the messages and we want the actor to die now
                     Ok(ActorLoopResult::stop(Some("Drained".to_string())))
@@ -1084,6 +1092,8 @@ where
             match std::panic::catch_unwind(AssertUnwindSafe(|| TActor::Msg::from_boxed(msg))) {
                 Ok(Ok(message)) => message,
                 Ok(Err(_)) => {
+                    #[cfg(ractor_verif)]
+                    crate::verif::emit("decode.dropped", myself.get_id().pid(), 0);
                     tracing::debug!(
                         "Dropping serialized message that actor {:?} could not decode",
                         myself.get_id()
@@ -1091,6 +1101,8 @@ where
                     return Ok(());
                 }
                 Err(_) => {
+                    #[cfg(ractor_verif)]
+                    crate::verif::emit("decode.dropped", myself.get_id().pid(), 1);
                     tracing::debug!(
                         "Dropping serialized message whose decoder panicked for actor {:?}",
                         myself.get_id()
@@ -1123,6 +1135,8 @@ where
     }
 
     fn handle_signal(myself: ActorRef<TActor::Msg>, signal: Signal) -> Option<String> {
+        #[cfg(ractor_verif)]
+        crate::verif::emit("sig.handled", myself.get_id().pid(), 0);
         match &signal {
             Signal::Kill => {
                 myself.terminate();
